@@ -138,7 +138,7 @@ func Main(prop string) {
 	total := &sched.Stats{Outcomes: map[string]int64{}, PerScn: map[string]int64{}}
 	var passReport []map[string]any
 	completed := 0
-	for _, p := range passes {
+	for pi, p := range passes {
 		if only := os.Getenv("VERIF_PASS"); only != "" && !strings.Contains(p.Name, only) {
 			// development aid: run a single pass; the run is reported as not exhaustive
 			r.Cap("pass skipped by VERIF_PASS: " + p.Name)
@@ -159,7 +159,13 @@ func Main(prop string) {
 				}
 			}
 		}
-		st, exhaustive, left := sched.Explore(sel, p.B, workers, r.Deadline, 25)
+		// fair share of what is left of the budget: on a loaded machine an early pass must not starve the later ones
+		// (each finds different things); a pass that finishes early leaves its share to the rest
+		passDeadline := r.Deadline
+		if rest := len(passes) - pi; rest > 1 {
+			passDeadline = time.Now().Add(time.Until(r.Deadline) / time.Duration(rest))
+		}
+		st, exhaustive, left := sched.Explore(sel, p.B, workers, passDeadline, 25)
 		passReport = append(passReport, map[string]any{"pass": p.Name, "bounds": p.B, "completed": exhaustive, "executions": st.Executions,
 			"subtrees_left": left, "wall_s": time.Since(t0).Seconds(), "distinct_outcomes": len(st.Outcomes), "max_decision_points": st.MaxPoints, "scenarios": len(sel)})
 		fmt.Printf("[%s] pass %-28s executions=%-8d outcomes=%-3d completed=%v left=%d %.1fs\n", prop, p.Name, st.Executions, len(st.Outcomes), exhaustive, left, time.Since(t0).Seconds())
